@@ -269,7 +269,7 @@ CHECKS["C18"] = {
     "text": "Proofs (closed under the global context) over model/Modules.v (the directory work-list of qmldir.rs populate_directories with its visited check; the custom "
             "widget collection of uigen/form.rs): the directories registered are EXACTLY the import-reachability closure of the sources' directories "
             "(C18_discovery_exact: soundness by induction over the work-list, completeness by the closed-up-to-pending invariant), hence the same for every order and "
-            "multiplicity of the source arguments (C18_discovery_order_independent); discovery terminates on every layout, mutually importing directories included "
+            "multiplicity of the source arguments (C18_discovery_order_independent); each directory is registered once (C18_discovery_registers_each_directory_once) and what is discovered for sources named together is exactly the union of what each discovers alone (C18_discovery_of_sources_named_together); discovery terminates on every layout, mutually importing directories included "
             "-- the fuel |dirs|*(maxout+2)+|sources|+1 always suffices (C18_discovery_terminates, measure: unvisited*(maxout+2)+|pending|); each custom class "
             "instantiated in a document is listed exactly once when its super class resolves (C18_customwidgets_once). Tie: the set of directory modules the real "
             "populate_directories registers vs the model on the import graph of generated layouts. On the real pipeline: normal termination on cyclic imports and "
